@@ -256,7 +256,10 @@ func serverCatalogue(c *core.Ctx, kr *keyring) []sCase {
 		{"exp-huge", `{"exp":1e30,"iat":%IAT%,"sub":"alice@pool.example"}`, -1},
 		{"exp-neg-huge", `{"exp":-1e30,"iat":%IAT%,"sub":"alice@pool.example"}`, -1},
 		{"iat-future", `{"exp":%EXP%,"iat":99999999999,"sub":"alice@pool.example"}`, 1},
-		{"iat-huge", `{"exp":%EXP%,"iat":-1e30,"sub":"alice@pool.example"}`, -1},
+		{"iat-huge", `{"exp":%EXP%,"iat":-1e30,"sub":"alice@pool.example"}`, 0},
+		{"iat-ancient", `{"exp":%EXP%,"iat":-9000000000000000000,"sub":"alice@pool.example"}`, 0},
+		{"iat-min", `{"exp":%EXP%,"iat":-9223372036854775808,"sub":"alice@pool.example"}`, 0},
+		{"iat-zero", `{"exp":%EXP%,"iat":0,"sub":"alice@pool.example"}`, 0},
 		{"dup-exp", `{"exp":1,"exp":%EXP%,"iat":%IAT%,"sub":"alice@pool.example"}`, 1},
 		{"payload-not-json", `{"exp":%EXP%,`, 0},
 		{"payload-array", `[]`, 0},
